@@ -27,7 +27,7 @@ ASSUMPTIONS = [
     '64-bit target; i128 arithmetic as specified by Rust',
 ]
 
-FLOORS = {'R14.1': 7, 'R14.2': 2, 'R14.3': 15}
+FLOORS = {'R14.1': 7, 'R14.2': 2, 'R14.3': 15, 'R14.4': 1}
 
 U64MAX = 2**64 - 1
 
@@ -266,4 +266,10 @@ def r14_3(cx):
                  fail_detail='may panic through %s' % bad)
 
 
-RULES = [('R14.1', r14_1), ('R14.2', r14_2), ('R14.3', r14_3)]
+def r14_4(cx):
+    """what now() stands on when it is given the crate's own base-time provider: the cell it reads never yields a torn or unchecked pair (whose assertion would panic inside now()) (R13.1-R13.3, R13.6)"""
+    from . import c13
+    compose(cx, [('R13.1', c13.r13_1), ('R13.2', c13.r13_2), ('R13.3', c13.r13_3), ('R13.6', c13.r13_6)])
+
+
+RULES = [('R14.1', r14_1), ('R14.2', r14_2), ('R14.3', r14_3), ('R14.4', r14_4)]
